@@ -208,4 +208,29 @@ theorem runOps_placed_stable : ∀ (ops : List Op) (m m' : RModule), runOps ops 
     simp only [countSni]
     rw [hk, push_keeps_placed_order m i e he (nodup_of_map_nodup _ hi1.keys)]
 
+/-! ### a list without a placed element (known finding C15-end-group) -/
+
+theorem renumber_all_new : ∀ (es : List Elem), (∀ e ∈ es, e.uid = 0) → renumber 0 es = .ok es
+  | [], _ => rfl
+  | e :: es, h => by
+    have he : e.uid = 0 := h e List.mem_cons_self
+    have ih := renumber_all_new es (fun x hx => h x (List.mem_cons_of_mem _ hx))
+    rw [renumber]
+    simp only [he, ne_eq, not_true_eq_false, ↓reduceIte, ih]
+    congr 2
+    cases e
+    simp_all
+
+/-- the elements of a list in which nothing is placed are only put into name order: they all stay new (uid 0) -/
+theorem sortObjectlistNew_all_new (es : List Elem) (h : ∀ e ∈ es, e.uid = 0) :
+    sortObjectlistNew es = .ok (es.mergeSort newLe) ∧ ∀ e ∈ es.mergeSort newLe, e.uid = 0 := by
+  have h' : ∀ e ∈ es.mergeSort newLe, e.uid = 0 := fun e he => h e (List.mem_mergeSort.1 he)
+  exact ⟨renumber_all_new _ h', h'⟩
+
+/-- among elements that are not placed the writer goes by line, then tag: an element pushed through the API (line 0)
+    of a kind with a smaller tag is written in front of an earlier one -/
+theorem writerLe_unplaced (a b : Elem) (ha : a.uid = 0) (hb : b.uid = 0) :
+    writerLe a b = (if a.line = b.line then decide (a.tag ≤ b.tag) else decide (a.line ≤ b.line)) := by
+  simp [writerLe, ha, hb]
+
 end A2l.Srt.L15
